@@ -29,6 +29,7 @@ ActFor(act) ==
     [] act.a = "leave"      -> OpLeave(act.n)
     [] act.a = "crash"      -> OpCrash(act.n)
     [] act.a = "join"       -> OpJoin(act.n, act.m)
+    [] act.a = "rejoin"     -> OpRejoin(act.n, act.m)
     [] act.a = "sync"       -> BeginSync
     [] act.a = "quiet"      -> DeclareQuiet
     [] act.a = "synced"     -> DeclareSynced
@@ -61,8 +62,9 @@ Resync ==
   /\ ml' = CASE act.a = "mljoin"  -> [ml EXCEPT ![act.n] = @ \cup {act.x}]
              [] act.a = "mlleave" -> [ml EXCEPT ![act.n] = @ \ {act.x}]
              [] act.a = "join"    -> [ml EXCEPT ![act.n] = @ \cup {act.m}, ![act.m] = @ \cup {act.n}]
+             [] act.a = "rejoin"  -> [ml EXCEPT ![act.n] = {act.m}, ![act.m] = @ \cup {act.n}]
              [] OTHER -> ml
-  /\ linked' = IF act.a = "join"
+  /\ linked' = IF act.a \in {"join", "rejoin"}
                  THEN [x \in Nodes |-> IF x \in grp(act.n, act.m) THEN grp(act.n, act.m) \ {x} ELSE linked[x]]
                  ELSE linked
   /\ pool' = pool \cup SeqSet(o.q)
